@@ -45,6 +45,7 @@ pub(crate) enum COp {
 
 /// one completed operation of the history (logical time = position of call / return in the global order)
 #[derive(Clone, Debug)]
+#[allow(dead_code)]
 pub(crate) struct HOp {
     pub actor: usize,
     pub kind: HKind,
